@@ -61,6 +61,7 @@ func Generate(rng *rand.Rand, i int, thorough bool) *p2prig.Scenario {
 		switch rng.Intn(5) {
 		case 4: // delivered before its parent: pushed unsolicited, hanging off a block the service does not have
 			ns.OrphanForbidden = true
+			ns.ChildFirst = rng.Intn(2) == 0 // its child first, alone; then the forbidden header followed by that child
 		case 0: // first: the store already holds everything below it
 			ns.ForbiddenAt = 2 + rng.Intn(s.HonestLen-14)
 			s.InitialStore, s.PrefixLen = "prefix", ns.ForbiddenAt-1
@@ -84,7 +85,16 @@ func Generate(rng *rand.Rand, i int, thorough bool) *p2prig.Scenario {
 	case "badcheckpoint":
 		at := s.CheckpointHeights[rng.Intn(len(s.CheckpointHeights))]
 		bad := p2prig.NodeSpec{Kind: "badcheckpoint", BadAt: int(at), MaxAccepts: 12, MaxLive: []int{1, 1, 0}[rng.Intn(3)]}
-		if rng.Intn(3) == 0 && int(at)+6 < s.HonestLen {
+		if rng.Intn(4) == 0 && int(at)+6 < s.HonestLen && at > 4 {
+			// the store is past the checkpoint; the contradicting branch forks a few blocks BELOW the checkpoint and arrives
+			// one header per message (first as a one-header reply, then announced), so the header at the checkpoint
+			// height comes first in its message with a stale parent
+			s.InitialStore = "prefix"
+			s.PrefixLen = int(at) + 1 + rng.Intn(s.HonestLen-int(at)-5)
+			bad.ForkBelow = 1 + rng.Intn(3)
+			bad.ForkLen = s.PrefixLen - int(at) + 4
+			bad.Cap = 1
+		} else if rng.Intn(3) == 0 && int(at)+6 < s.HonestLen {
 			// the store is already synced PAST that checkpoint when the contradicting (taller, lighter) branch arrives
 			s.InitialStore = "prefix"
 			s.PrefixLen = int(at) + 1 + rng.Intn(s.HonestLen-int(at)-5)
@@ -116,6 +126,10 @@ func classify(s *p2prig.Scenario) string {
 	for _, n := range s.Nodes[1:] {
 		k := n.Kind
 		switch {
+		case n.Kind == "badcheckpoint" && n.ForkBelow > 0:
+			k += "(fork-below-passed-checkpoint,one-header-messages)"
+		case n.Kind == "forbidden" && n.OrphanForbidden && n.ChildFirst:
+			k += "(child-first)"
 		case n.Kind == "badcheckpoint" && n.ForkLen > 0:
 			k += "(passed-checkpoint)"
 		case n.Kind == "forbidden" && n.OrphanForbidden:
